@@ -21,8 +21,8 @@ inductive Just (w : World) (entries : List Nat) : Task → Prop
   | nameFrom {m n : Nat} {p : Nat × Nat × Nat} : Just w entries (.reqName m n) → ownExport (w.mod m) n = none →
       findLocalExport (w.mod m) n = none → findFrom (w.mod m) n = some p → Just w entries (.reqName p.2.1 p.2.2)
   | nameStar {m n x : Nat} : Just w entries (.reqName m n) → ownExport (w.mod m) n = none →
-      findLocalExport (w.mod m) n = none → findFrom (w.mod m) n = none → n ≠ 0 → x ∈ (w.mod m).stars →
-      Just w entries (.reqName x n)
+      findLocalExport (w.mod m) n = none → findFrom (w.mod m) n = none →
+      starProvider w (w.mod m) n = some x → Just w entries (.reqName x n)
   | localDecl {m l : Nat} {d : Decl} : Just w entries (.local m l) → findDecl (w.mod m) l = some d →
       Just w entries (.decl m d.name)
   | localImport {m l : Nat} {p : Nat × Nat × Nat} : Just w entries (.local m l) → findDecl (w.mod m) l = none →
@@ -113,13 +113,13 @@ theorem inv2_step (w : World) (entries : List Nat) (s : State) (t : Task) (rest 
               · exact Or.inr (Just.nameFrom ht hd hp hq))
           · rename_i hq
             split
-            · exact key _ rfl rfl (fun u hu => Or.inl hu)
-            · rename_i hn
+            · rename_i x hsp
               exact key _ rfl rfl (fun u hu => by
-                simp only [List.mem_append, List.mem_map] at hu
-                rcases hu with hu | ⟨x, hx, rfl⟩
+                simp only [List.mem_append, List.mem_singleton] at hu
+                rcases hu with hu | rfl
                 · exact Or.inl hu
-                · exact Or.inr (Just.nameStar ht hd hp hq hn hx))
+                · exact Or.inr (Just.nameStar ht hd hp hq hsp))
+            · exact key _ rfl rfl (fun u hu => Or.inl hu)
     | «local» m l =>
       have key : ∀ (s' : State), s'.done = s.done ++ [Task.local m l] → s'.decls = s.decls →
           (∀ u ∈ s'.work, u ∈ rest ∨ Just w entries u) → Inv2 w entries s' := by
